@@ -53,8 +53,65 @@ mod imp {
         out
     }
 
+    /// Fallback when Kani could not print concrete values (trace generation ran out of
+    /// memory): the solver has already decided that the harness fails; look for a failing
+    /// input by running the same harness body natively on pseudo-random values.
+    /// `replay --search <harness> <seed> <seconds> [out.json]`; exit 101 when found.
+    fn search(name: &str, seed: u64, seconds: u64, out: Option<&String>) {
+        let f = lmverif::replay_table::TABLE
+            .iter()
+            .find(|(n, _)| *n == name)
+            .map(|(_, f)| *f)
+            .unwrap_or_else(|| {
+                eprintln!("unknown harness {}", name);
+                exit(2)
+            });
+        std::panic::set_hook(Box::new(|_| {}));
+        let t0 = std::time::Instant::now();
+        let mut iter: u64 = 0;
+        let mut admissible: u64 = 0;
+        while t0.elapsed().as_secs() < seconds {
+            iter += 1;
+            lmverif::nd::start_search(seed.wrapping_mul(0x9e37_79b9_7f4a_7c15).wrapping_add(iter.wrapping_mul(0xd134_2543_de82_ef95)));
+            let r = std::panic::catch_unwind(f);
+            match r {
+                Ok(()) => admissible += 1,
+                Err(p) => {
+                    if p.downcast_ref::<lmverif::nd::AssumeFailed>().is_some() {
+                        continue;
+                    }
+                    let vals = lmverif::nd::drawn();
+                    let msg = p
+                        .downcast_ref::<String>()
+                        .cloned()
+                        .or_else(|| p.downcast_ref::<&str>().map(|s| s.to_string()))
+                        .unwrap_or_default();
+                    let mut js = format!("{{\n \"harness\": \"{}\",\n \"check\": \"found by native search after the solver's verdict: {}\",\n \"vals\": [", name, msg.replace('"', "'"));
+                    for (i, v) in vals.iter().enumerate() {
+                        if i > 0 {
+                            js.push(',');
+                        }
+                        js.push_str(&format!("{:?}", v));
+                    }
+                    js.push_str("]\n}\n");
+                    if let Some(o) = out {
+                        let _ = std::fs::write(o, &js);
+                    }
+                    eprintln!("REPRODUCED by search: iteration {} ({} admissible): {}", iter, admissible, msg);
+                    exit(101);
+                }
+            }
+        }
+        eprintln!("search exhausted: {} iterations, {} admissible, no failure", iter, admissible);
+        exit(0);
+    }
+
     pub fn main() {
         let args: Vec<String> = std::env::args().collect();
+        if args.len() >= 5 && args[1] == "--search" {
+            search(&args[2], args[3].parse().unwrap_or(1), args[4].parse().unwrap_or(30), args.get(5));
+            return;
+        }
         if args.len() < 3 {
             eprintln!("usage: replay <harness> <replay.json>");
             exit(2);
